@@ -185,13 +185,13 @@ class Walker:
 def rexpr_tokens(e, bind):
     k = e[0]
     if k == "name":
-        return ["N", str(bind(e[1]))]
+        return bind(e[1])
     if k == "const":
-        return ["K", str(e[1])]
+        return ["K", "Z", str(e[1])]
     if k == "bin":
         return ["B", e[1]] + rexpr_tokens(e[2], bind) + rexpr_tokens(e[3], bind)
     if k == "index":
-        return ["B", "getitem"] + rexpr_tokens(e[1], bind) + ["K", str(e[2])]
+        return ["B", "getitem"] + rexpr_tokens(e[1], bind) + ["K", "Z", str(e[2])]
     raise WalkError("requirement expression " + k)
 
 
@@ -211,13 +211,22 @@ def export(scenario, reqs):
     source order; names are resolved through the bindings captured by the compiled requirement."""
     w = Walker()
     deps = [w.node(d) for d in scenario.dependencies]
-    obs = []      # (label, node)
+    from scenic.core.lazy_eval import isLazy
+    from scenic.core.distributions import toDistribution
+    obs = []      # (label, node or None, constant text or None)
+
+    def ob(label, v):
+        v = toDistribution(v)
+        if isLazy(v):
+            obs.append((label, w.node(v), None))
+        else:
+            obs.append((label, None, canon(v)))
     for name, v in scenario.params.items():
-        obs.append(("param:" + name, w.node(v)))
+        ob("param:" + name, v)
     for i, o in enumerate(scenario.objects):
         for p in sorted(o.properties):
             if p.startswith("foo"):
-                obs.append((f"obj{i}.{p}", w.node(getattr(o, p))))
+                ob(f"obj{i}.{p}", getattr(o, p))
     ureqs = sorted(scenario.userRequirements, key=lambda r: r.line)
     if len(ureqs) != len(reqs):
         raise WalkError("number of requirements")
@@ -228,7 +237,11 @@ def export(scenario, reqs):
         def bind(name, gb=gb):
             if name not in gb:
                 raise WalkError("requirement does not bind " + name)
-            return w.node(gb[name])
+            from scenic.core.lazy_eval import isLazy
+            v = gb[name]
+            if not isLazy(v):
+                return ["K"] + const_tokens(v)        # a name bound to a constant when the statement ran
+            return ["N", str(w.node(v))]
         by_line[r.line] = [qstr(Fraction(r.prob))] + cond_tokens(spec, bind)
     # the order in which _generateInner draws the activations
     rtoks = [by_line[r.line] for r in scenario.userRequirements]
